@@ -16,6 +16,11 @@ extern "C" fn on_signal(_: libc::c_int) {}
 pub fn run() {
     raise_nofile();
     verif::init();
+    // the library must not rely on SIGPIPE being ignored (the Rust runtime ignores it; a C host program does not)
+    unsafe {
+        libc::signal(libc::SIGPIPE, libc::SIG_DFL);
+    }
+
     let _ = ipc_channel::platform::verif_constants(4096);
     // SIGUSR1 without SA_RESTART: interrupts a blocking epoll_wait
     unsafe {
@@ -54,8 +59,36 @@ fn run_case(case: &Value, gates: &Gates) -> Value {
     let mut rxs = HashMap::new();
     let mut handles = Vec::new();
     let mut pactors: HashMap<i64, ProcActor> = HashMap::new();
+    // late members: the channel is created by the selecting thread right before the add (descriptor numbers of members
+    // that have left the set are reused); the sender thread waits for its handle
+    let late: Vec<i64> = case["late"].as_array().map(|a| a.iter().filter_map(|x| x.as_i64()).collect()).unwrap_or_default();
+    let mut late_tx: HashMap<i64, std::sync::mpsc::Sender<ipc::IpcSender<SMsg>>> = HashMap::new();
     for (i, npks) in msgs.iter().enumerate() {
         let m = i as i64 + 1;
+        if late.contains(&m) {
+            let (htx, hrx) = std::sync::mpsc::channel::<ipc::IpcSender<SMsg>>();
+            late_tx.insert(m, htx);
+            let npks = npks.clone();
+            let g = gates.clone();
+            g.register(m);
+            handles.push(std::thread::spawn(move || {
+                verif::set_actor(m);
+                g.set_tid(m);
+                let tx = match hrx.recv() {
+                    Ok(tx) => tx,
+                    Err(_) => {
+                        g.finished(m);
+                        return;
+                    },
+                };
+                for (j, npk) in npks.iter().enumerate() {
+                    let _ = tx.send(make_msg(m, j as i64 + 1, *npk, attach, &tx));
+                }
+                drop(tx);
+                g.finished(m);
+            }));
+            continue;
+        }
         let (tx, rx) = ipc::channel::<SMsg>().unwrap();
         rxs.insert(m, rx);
         if procs.contains(&m) {
@@ -122,7 +155,18 @@ fn run_case(case: &Value, gates: &Gates) -> Value {
             for op in prog.iter() {
                 if gets(op, "op") == "add" {
                     let m = geti(op, "m");
-                    let rx = rxs.remove(&m).unwrap();
+                    let rx = match late_tx.remove(&m) {
+                        Some(htx) => {
+                            // created now, ungated (the creation is not part of the model's schedule)
+                            let was = verif::actor();
+                            verif::set_actor(-1);
+                            let (tx, rx) = ipc::channel::<SMsg>().unwrap();
+                            verif::set_actor(was);
+                            let _ = htx.send(tx);
+                            rx
+                        },
+                        None => rxs.remove(&m).unwrap(),
+                    };
                     let idv = set.add(rx).unwrap();
                     ids.push(json!({"m": m, "id": idv}));
                     live += 1;
